@@ -7,6 +7,10 @@ package streams
 //	           third fresh engine C with the hard budgets N_i = nodes A used at move i.
 //	c08budget  the request sweep of c06 (every hard budget k): nodes used vs. budget
 //
+//	c08par     >= 4 fresh engines serve the same request at the same time WITHOUT WithCounters (the way
+//	           uci and datagen call Search.Go), compared with a solo run of the same request; node
+//	           counts are read from the printed lines. See runC08par.
+//
 // Request fields used by c08: TTKB, HasDepth/Depth, SoftNodes = S, StopArg = number of plies to play,
 // Warm = number of busy goroutines (load), Nodes = hard cap given together with the soft limit
 // (-1: none).
@@ -43,6 +47,7 @@ import (
 func init() {
 	hx.Register(&hx.Stream{Name: "c08", Gen: genC08, Run: runC08})
 	hx.Register(&hx.Stream{Name: "c08budget", Gen: genC06, Run: runC06})
+	hx.Register(&hx.Stream{Name: "c08par", Gen: genC08par, Run: runC08par})
 }
 
 type sbStep struct {
@@ -51,6 +56,8 @@ type sbStep struct {
 	Ponder move.Move
 	Nodes  int
 	Lines  []string // time stripped
+	// largest node count / depth on any printed line (filled by sbPlayNC only)
+	MaxNodes, MaxDepth int
 }
 
 // sbPlay plays a game of searches on engine s from the root. limit(i) gives the options of ply i.
@@ -347,3 +354,205 @@ func genC08(rng *hx.Rng, n int, tier string, emit func(hx.Input)) {
 }
 
 var _ = board.StartPos
+
+// ---------------------------------------------------------------------------------------------
+// c08par: engines that share nothing but the process
+//
+// Request fields: TTKB, Warm = number of concurrent engines (at least 4), HasDepth/Depth, Nodes = hard
+// budget (-1 none), SoftNodes (-1 none), StopArg = plies each engine plays (1..4). No WithCounters is
+// passed anywhere: scores, moves and ponder moves are the return values, depths / node counts / PVs
+// come from the printed lines (time field stripped).
+//
+// Observation:
+//
+//	engines plies soloAgree badEngine badStep badWhat maxNodes budget refNodes refDepth
+//
+// soloAgree: two solo runs (one after the other, nothing else searching) agree. badEngine: first
+// concurrently running engine that did not reproduce the solo run (-1: all did), badStep/badWhat as in
+// c08 (1 move, 2 score, 3 ponder, 4 nodes of the last line, 5 printed lines, 6 number of plies).
+// maxNodes: largest node count printed by any run; budget: the hard budget (-1 none).
+
+// sbPlayNC plays a game of searches without WithCounters.
+func sbPlayNC(s *search.Search, root sbRoot, plies int, r sbReq) []sbStep {
+	b := sbBoard(root)
+	var steps []sbStep
+	for i := 0; i < plies; i++ {
+		w := &sbWriter{}
+		opts := []search.Option{search.WithOutput(w)}
+		if r.HasDepth {
+			opts = append(opts, search.WithDepth(Depth(r.Depth)))
+		}
+		if r.Nodes >= 0 {
+			opts = append(opts, search.WithNodes(r.Nodes))
+		}
+		if r.SoftNodes >= 0 {
+			opts = append(opts, search.WithSoftNodes(r.SoftNodes))
+		}
+		sc, m, p := s.Go(b, opts...)
+		st := sbStep{Score: sc, Move: m, Ponder: p, Nodes: -1}
+		for _, l := range w.lines() {
+			st.Lines = append(st.Lines, sbStripTime(l))
+			if in := sbParseInfo(l); in.Kind != 0 {
+				st.Nodes = in.Nodes // nodes of the last line
+				st.MaxNodes, st.MaxDepth = max(st.MaxNodes, in.Nodes), max(st.MaxDepth, in.Depth)
+			}
+		}
+		steps = append(steps, st)
+		if m == 0 || !sbIsLegal(b, m) {
+			break
+		}
+		b.MakeMove(m)
+	}
+	return steps
+}
+
+func sbMaxNodes(steps []sbStep, depth *int) int {
+	mx := 0
+	for _, st := range steps {
+		mx = max(mx, st.MaxNodes)
+		if depth != nil {
+			*depth = max(*depth, st.MaxDepth)
+		}
+	}
+	return mx
+}
+
+func runC08par(a hx.Args) string {
+	r, _, ok := sbDecode(a, 0)
+	if !ok {
+		return "badinput"
+	}
+	if sbBoard(r.Root) == nil {
+		return "badroot"
+	}
+	if r.Nodes < 0 && r.SoftNodes <= 0 && !(r.HasDepth && r.Depth <= 8) && sbFinal(sbBoard(r.Root)) == 0 {
+		return "badinput" // would never stop
+	}
+	engines := r.Warm
+	if engines < 4 {
+		engines = 4
+	}
+	if engines > 64 {
+		engines = 64
+	}
+	plies := r.StopArg
+	if plies < 1 {
+		plies = 1
+	}
+	if plies > 4 {
+		plies = 4
+	}
+	tt := r.TTKB
+	if tt < 32 {
+		tt = 32
+	}
+	if tt > 4096 {
+		tt = 4096
+	}
+	ref := sbPlayNC(search.New(tt*1024), r.Root, plies, r)
+	ref2 := sbPlayNC(search.New(tt*1024), r.Root, plies, r)
+	soloStep, _ := sbCompareSteps(ref, ref2, false)
+	refDepth := 0
+	maxNodes := sbMaxNodes(ref, &refDepth)
+	if m := sbMaxNodes(ref2, nil); m > maxNodes {
+		maxNodes = m
+	}
+	// the concurrent engines: all built first, released together
+	es := make([]*search.Search, engines)
+	for i := range es {
+		es[i] = search.New(tt * 1024)
+	}
+	games := make([][]sbStep, engines)
+	pan := make([]any, engines)
+	start := make(chan struct{})
+	var wg sync.WaitGroup
+	for e := 0; e < engines; e++ {
+		wg.Add(1)
+		go func(e int) {
+			defer wg.Done()
+			defer func() { pan[e] = recover() }()
+			<-start
+			games[e] = sbPlayNC(es[e], r.Root, plies, r)
+		}(e)
+	}
+	close(start)
+	wg.Wait()
+	for _, p := range pan {
+		if p != nil {
+			panic(p)
+		}
+	}
+	badE, badStep, badWhat := -1, 0, 0
+	for e := range games {
+		if m := sbMaxNodes(games[e], nil); m > maxNodes {
+			maxNodes = m
+		}
+		if st, wh := sbCompareSteps(ref, games[e], false); st != -1 && badE == -1 {
+			badE, badStep, badWhat = e, st, wh
+		}
+	}
+	refNodes := 0
+	if len(ref) > 0 {
+		refNodes = ref[0].Nodes
+	}
+	out := &hx.Nums{}
+	out.Int(engines, len(ref)).B(soloStep == -1).Int(badE, badStep, badWhat, maxNodes, r.Nodes, refNodes, refDepth)
+	return out.String()
+}
+
+func genC08par(rng *hx.Rng, n int, tier string, emit func(hx.Input)) {
+	roots := sbRoots()
+	epd := sbEpdRoots()
+	// roots on which a search of some ten thousand nodes is real work (engines must overlap in time)
+	var busy []sbRoot
+	for _, root := range roots {
+		if b := sbBoard(root); sbFinal(b) == 0 && len(sbLegalMoves(b)) >= 8 {
+			busy = append(busy, root)
+		}
+	}
+	for c := 0; c < n; c++ {
+		var root sbRoot
+		switch {
+		case c < 3:
+			root = busy[c%len(busy)]
+		case len(epd) > 0 && rng.Chance(0.5):
+			root = epd[rng.Intn(len(epd))]
+		case rng.Chance(0.15):
+			root = roots[rng.Intn(len(roots))] // final and tiny roots too
+		default:
+			root = sbRandomWalk(rng, busy[rng.Intn(len(busy))], rng.Intn(8))
+		}
+		r := sbReq{TTKB: 32, Nodes: -1, SoftNodes: -1, Root: root}
+		if rng.Chance(0.5) {
+			r.TTKB = 1024
+		}
+		r.Warm = 4 + rng.Intn(2*runtime.NumCPU())
+		r.StopArg = 1 + rng.Intn(2)
+		scale := 1
+		if tier == "thorough" {
+			scale = 4
+		}
+		var tags []string
+		switch c % 3 {
+		case 0: // go nodes N
+			r.Nodes = scale * (8000 + rng.Intn(30000))
+			tags = []string{"hard-budget"}
+		case 1: // datagen style: soft limit with a hard cap
+			r.SoftNodes = scale * (4000 + rng.Intn(15000))
+			r.Nodes = 10 * r.SoftNodes
+			tags = []string{"soft+hard-cap"}
+		default:
+			r.SoftNodes = scale * (4000 + rng.Intn(15000))
+			tags = []string{"soft-only"}
+			if rng.Chance(0.3) {
+				r.HasDepth, r.Depth = true, 4+rng.Intn(5)
+				tags = append(tags, "+depth")
+			}
+		}
+		b := sbBoard(root)
+		emit(hx.Input{In: r.encode().String(),
+			Desc:       r.desc() + " (no WithCounters; warm = concurrent engines, stop-arg = plies)",
+			Tags:       tags,
+			NonTrivial: sbFinal(b) == 0})
+	}
+}
